@@ -111,7 +111,22 @@ impl<'a, 'b> G<'a, 'b> {
     }
 
     fn arg(&mut self) -> String {
-        match self.t.weighted(&[4, 4, 1, 1, 1, 2, 3]) {
+        match self.t.weighted(&[4, 4, 1, 1, 1, 2, 3, 2]) {
+            7 => {
+                // a call behind a value the rules cannot know (a global): it runs or not at run time
+                self.st.side_effect_args += 1;
+                let l = self.lit();
+                match self.t.choose(7) {
+                    0 => format!("OTHER_FLAG and probe1({})", l),
+                    1 => format!("UNSET_FLAG or probe1({})", l),
+                    2 => format!("UNSET_FLAG and probe1({})", l),
+                    3 => format!("OTHER_FLAG or probe1({})", l),
+                    4 => format!("(OTHER_FLAG and UNSET_FLAG) or probe1({})", l),
+                    // Luau if-expressions: the call sits in one branch only
+                    5 => format!("if OTHER_FLAG then {} else probe1(2)", l),
+                    _ => format!("if UNSET_FLAG then {} elseif probe1(false) then 1 else probe1(3)", l),
+                }
+            }
             6 => {
                 // a call under an operator: the side effect is still there
                 self.st.side_effect_args += 1;
